@@ -4,7 +4,9 @@
 //!   qxv record phase --out P --shards S [--seed s]
 //!        --exhaustive N,D [--maxm M] [--pairs P]   every n in -N..=N, d in 1..=D: new (both sign
 //!                                conventions), preds, neg, cmp with n/d + 2k and n/d + 1, a few integer
-//!                                multiples, limit_denominator for every m in 2..=M, P sampled add/sub
+//!                                multiples, limit_denominator for every m in 2..=M, P sampled add/sub;
+//!                                Div<i64> by a few divisors, normalize(), Display, and per sampled partner
+//!                                Mul<Phase> / Div<Phase> (each through the operator AND its assign form)
 //!        --raw                   with --exhaustive: also Phase::new(Ratio::new_raw(n, d)) and (-n, -d); observation only
 //!        --random K              K seeded histories of ~30 operations on 4 phase registers
 //!        --floats K              K extra f64 round trips (from_f64 . to_f64), harness-side 1e-12 test
@@ -204,6 +206,90 @@ impl M<'_> {
             }
         });
     }
+    /// run a request whose result is computed twice: through the operator and through its assign form
+    /// (`*=`, `/=`); both results are logged (`out`, `out2`), TLC compares them
+    fn op2(&mut self, kind: &'static str, mut req: Value, r: usize, f: impl FnOnce(&[Phase]) -> (Phase, Phase)) {
+        self.announce(&req);
+        self.bump(kind);
+        let regs = self.regs.clone();
+        match guarded(|| f(&regs)) {
+            Err(msg) => {
+                req["res"] = json!("panic");
+                req["msg"] = json!(msg);
+                self.bump("panics");
+            }
+            Ok((p, q)) if sane(&p) && sane(&q) => {
+                let ((n, d), (n2, d2)) = (nd(&p), nd(&q));
+                req["res"] = json!("ok");
+                req["out"] = json!([n, d]);
+                req["out2"] = json!([n2, d2]);
+                self.regs[r] = p;
+            }
+            Ok((p, q)) => {
+                let ((n, d), (n2, d2)) = (nd(&p), nd(&q));
+                req["res"] = json!("bad");
+                req["outs"] = json!([n.to_string(), d.to_string(), n2.to_string(), d2.to_string()]);
+            }
+        }
+        self.emit(req);
+    }
+    /// denominators small enough for the product / quotient of the two representatives to stay below 2^15
+    fn prod_small(&self, a: usize, b: usize) -> bool {
+        nd(&self.regs[a]).1 * nd(&self.regs[b]).1 < SMALL
+    }
+    /// Mul<Phase> and MulAssign<Phase>: the product of the two stored representatives (not an operation on classes)
+    fn mulph(&mut self, r: usize, a: usize, b: usize) {
+        assert!(self.prod_small(a, b));
+        let req = json!({"k": "mulph", "r": r, "a": a, "b": b, "av": self.pv(a), "bv": self.pv(b)});
+        self.op2("mulph", req, r, move |x| {
+            let mut y = x[a];
+            y *= x[b];
+            (x[a] * x[b], y)
+        });
+    }
+    /// Div<Phase> and DivAssign<Phase>; a zero divisor is sent too (the panic of num::Ratio is then expected, not judged)
+    fn divph(&mut self, r: usize, a: usize, b: usize) {
+        assert!(self.prod_small(a, b));
+        let req = json!({"k": "divph", "r": r, "a": a, "b": b, "av": self.pv(a), "bv": self.pv(b)});
+        self.op2("divph", req, r, move |x| {
+            let mut y = x[a];
+            y /= x[b];
+            (x[a] / x[b], y)
+        });
+    }
+    /// Div<i64> and DivAssign<i64>
+    fn divint(&mut self, r: usize, a: usize, c: i64) {
+        assert!(nd(&self.regs[a]).1 * c.abs() < SMALL);
+        let req = json!({"k": "divint", "r": r, "a": a, "c": c, "av": self.pv(a)});
+        self.op2("divint", req, r, move |x| {
+            let mut y = x[a];
+            y /= c;
+            (x[a] / c, y)
+        });
+    }
+    /// Phase::normalize called on a stored value
+    fn normalize(&mut self, r: usize, a: usize) {
+        let req = json!({"k": "normalize", "r": r, "a": a, "av": self.pv(a)});
+        self.op("normalize", req, r, move |x| x[a].normalize());
+    }
+    /// Display (observation: the property does not fix a text format; compared with num::Ratio's as L1)
+    fn display(&mut self, a: usize) {
+        let mut req = json!({"k": "display", "a": a, "av": self.pv(a)});
+        self.announce(&req);
+        self.bump("display");
+        let p = self.regs[a];
+        match guarded(|| format!("{p}")) {
+            Err(msg) => {
+                req["res"] = json!("panic");
+                req["msg"] = json!(msg);
+            }
+            Ok(s) => {
+                req["res"] = json!("ok");
+                req["s"] = json!(s.chars().filter(|c| c.is_ascii_graphic()).take(60).collect::<String>());
+            }
+        }
+        self.emit(req);
+    }
     fn limit(&mut self, r: usize, a: usize, m: i64) {
         assert!((2..SMALL).contains(&m));
         let req = json!({"k": "limit", "r": r, "a": a, "m": m, "av": self.pv(a)});
@@ -371,6 +457,81 @@ impl M<'_> {
         }
         self.emit(req);
     }
+    /// Mul<Phase>, Div<Phase>, Div<i64> (and their assign forms) with operands up to 2^30 / 2^40: harness-side checks only
+    /// (canonical range + reducedness; operator = assign form; `rep`: equal to the normalised product / quotient of
+    /// the two stored representatives computed in i128, which is what the code is written to do: L1 only)
+    fn bigring(&mut self, rng: &mut StdRng) {
+        let bits = |rng: &mut StdRng, max: u32| -> i64 {
+            let b = rng.random_range(1..=max);
+            rng.random_range((1i64 << (b - 1))..(1i64 << b))
+        };
+        let sign = |rng: &mut StdRng| if rng.random_bool(0.5) { -1 } else { 1 };
+        let op = ["mulph", "divph", "divint"][rng.random_range(0..3usize)];
+        let (x, y, c): ((i64, i64), (i64, i64), i64) = match op {
+            "divint" => ((sign(rng) * bits(rng, 40), bits(rng, 40)), (1, 1), sign(rng) * bits(rng, 20)),
+            _ => ((sign(rng) * bits(rng, 30), bits(rng, 30)), (sign(rng) * bits(rng, 30), bits(rng, 30)), 1),
+        };
+        // the divisor must not be the zero phase (an even integer)
+        let y = if op == "divph" && y.0.rem_euclid(2 * y.1) == 0 { (y.0 + 1, y.1) } else { y };
+        let mut req = json!({"k": "bigring", "op": op, "x": [x.0.to_string(), x.1.to_string()], "y": [y.0.to_string(), y.1.to_string()], "c": c.to_string()});
+        self.announce(&req);
+        self.bump("bigring");
+        let res = guarded(|| {
+            let px = Phase::new(Rational64::new(x.0, x.1));
+            let py = Phase::new(Rational64::new(y.0, y.1));
+            let mut asg = px;
+            match op {
+                "mulph" => {
+                    asg *= py;
+                    (px, py, px * py, asg)
+                }
+                "divph" => {
+                    asg /= py;
+                    (px, py, px / py, asg)
+                }
+                _ => {
+                    asg /= c;
+                    (px, py, px / c, asg)
+                }
+            }
+        });
+        match res {
+            Err(msg) => {
+                req["res"] = json!("panic");
+                req["msg"] = json!(msg);
+            }
+            Ok((px, py, out, asg)) => {
+                let canon = |p: &Phase| {
+                    let (n, d) = nd(p);
+                    d > 0 && -d < n && n <= d && gcd(n, d) == 1
+                };
+                let ((xn, xd), (yn, yd)) = (nd(&px), nd(&py));
+                let ((xn, xd), (yn, yd)) = ((xn as i128, xd as i128), (yn as i128, yd as i128));
+                let (mut en, mut ed): (i128, i128) = match op {
+                    "mulph" => (xn * yn, xd * yd),
+                    "divph" => (xn * yd, xd * yn),
+                    _ => (xn, xd * c as i128),
+                };
+                // the representative in (-1, 1] of en/ed (ed != 0: py and c are non-zero by construction)
+                if ed < 0 {
+                    (en, ed) = (-en, -ed);
+                }
+                let g = gcd128(en, ed).max(1);
+                (en, ed) = (en / g, ed / g);
+                en = en.rem_euclid(2 * ed);
+                if en > ed {
+                    en -= 2 * ed;
+                }
+                let (on, od) = nd(&out);
+                req["res"] = json!("ok");
+                req["outs"] = json!([on.to_string(), od.to_string()]);
+                req["bigok"] = json!(canon(&out) && canon(&px) && canon(&py));
+                req["same"] = json!(out == asg);
+                req["rep"] = json!(on as i128 == en && od as i128 == ed);
+            }
+        }
+        self.emit(req);
+    }
 }
 
 /// a raw operand n/d (possibly unreduced, possibly negative denominator) whose reduced
@@ -409,7 +570,44 @@ fn history(m: &mut M, rng: &mut StdRng) {
     for _ in 0..len {
         let (r, a, b) = (rng.random_range(0..NREGS), rng.random_range(0..NREGS), rng.random_range(0..NREGS));
         let asg = rng.random_bool(0.4);
-        match rng.random_range(0..100u32) {
+        match rng.random_range(0..118u32) {
+            100..=111 => {
+                // Mul<Phase> / Div<Phase> / Div<i64>: the representatives' product / quotient must stay below 2^15 for
+                // TLC, so operands with small denominators are loaded when the registers' are too large
+                let small = |rng: &mut StdRng| {
+                    let d = [1, 2, 3, 4, 5, 6, 8, 12][rng.random_range(0..8usize)];
+                    (rng.random_range(-2 * d..=2 * d), d)
+                };
+                let which = rng.random_range(0..3u32);
+                if which < 2 {
+                    if !m.prod_small(a, b) {
+                        let (n, d) = small(rng);
+                        m.new_phase(b, n, d, "ratio");
+                    }
+                    if !m.prod_small(a, b) {
+                        let (n, d) = small(rng);
+                        m.new_phase(a, n, d, "ratio");
+                    }
+                    if which == 0 {
+                        m.mulph(r, a, b)
+                    } else {
+                        m.divph(r, a, b)
+                    }
+                } else {
+                    let cmax = ((SMALL - 1) / nd(&m.regs[a]).1).min(64);
+                    let c = match rng.random_range(0..4u32) {
+                        0 => 2,
+                        1 => -2,
+                        _ => rng.random_range(-cmax..=cmax),
+                    };
+                    if c.abs() <= cmax {
+                        m.divint(r, a, c)
+                    }
+                }
+                m.preds(r)
+            }
+            112..=114 => m.normalize(r, a),
+            115..=117 => m.display(a),
             0..=14 => {
                 let (n, d) = operand(rng, base);
                 if d == 1 && rng.random_bool(0.5) {
@@ -507,6 +705,12 @@ fn exhaustive(m: &mut M, rng: &mut StdRng, nmax: i64, dmax: i64, maxm: i64, pair
             for mm in 2..=maxm {
                 m.limit(2, 0, mm);
             }
+            for c in [2, -3, rng.random_range(-8..=8i64)] {
+                m.divint(2, 0, c);
+                m.preds(2);
+            }
+            m.normalize(2, 0);
+            m.display(0);
             for _ in 0..pairs {
                 let d2 = rng.random_range(1..=dmax);
                 let n2 = rng.random_range(-nmax..=nmax);
@@ -514,6 +718,10 @@ fn exhaustive(m: &mut M, rng: &mut StdRng, nmax: i64, dmax: i64, maxm: i64, pair
                 m.add(2, 0, 3, false);
                 m.sub(2, 0, 3, false);
                 m.sub(1, 2, 0, false); // (x - y) - x = -y
+                m.mulph(2, 0, 3);
+                m.preds(2);
+                m.divph(2, 0, 3);
+                m.preds(2);
             }
         }
     }
@@ -550,7 +758,11 @@ fn workload(args: &[String], seed: u64, m: &mut M) {
         if i % 50 == 0 {
             m.begin("big");
         }
-        m.big(&mut rng);
+        if i % 4 == 3 {
+            m.bigring(&mut rng);
+        } else {
+            m.big(&mut rng);
+        }
     }
 }
 
